@@ -86,15 +86,16 @@ def shadow_apply(s: Shadow, op: dict, taint_zero_std: bool = False) -> Shadow:
         return Shadow(arr, [d for d in s.dims if d != op["dim"]], {d: v for d, v in s.coords.items() if d != op["dim"]})
     if k in ("stack", "flatten"):
         ax = s.dims.index(op["dim"])
-        arr = np.moveaxis(s.arr, ax, (s.nd - 1) + op["axis"])
+        inner = s.arr.ndim - s.nd
+        arr = np.moveaxis(s.arr, ax, (s.nd - 1) + op["axis"] % (inner + 1))   # a negative axis counts from the end, as in NumPy
         return Shadow(arr, [d for d in s.dims if d != op["dim"]], {d: v for d, v in s.coords.items() if d != op["dim"]})
     if k == "concatenate":
         ax = s.dims.index(op["dim"])
         parts = [np.take(s.arr, i, axis=ax) for i in range(s.arr.shape[ax])]
-        arr = np.concatenate(parts, axis=(s.nd - 1) + op["axis"])
+        arr = np.concatenate(parts, axis=(s.nd - 1) + op["axis"] % (s.arr.ndim - s.nd))
         return Shadow(arr, [d for d in s.dims if d != op["dim"]], {d: v for d, v in s.coords.items() if d != op["dim"]})
     if k == "expand":
-        arr = np.moveaxis(s.arr, s.nd + op["internal"], op["axis"])
+        arr = np.moveaxis(s.arr, s.nd + op["internal"] % (s.arr.ndim - s.nd), op["axis"])
         dims = list(s.dims)
         dims.insert(op["axis"], op["dim"])
         return Shadow(arr, dims, {**s.coords, op["dim"]: list(op["values"]) if op.get("values") else list(range(arr.shape[op["axis"]]))})
@@ -261,14 +262,16 @@ def gen_op(rng, s: Shadow, used: set) -> dict | None:
         return {"op": k, "name": rng.choice(list(REDUCTIONS)), "dim": dim, "batch": rng.choice([0, 0, 1, 2, 3, n - 1, n, n + 1]),
                 "keep": rng.random() < 0.4}
     if k in ("stack", "flatten"):
-        return {"op": k, "dim": rng.choice(big), "axis": rng.randint(0, inner_rank)}
+        ax = rng.randint(0, inner_rank)
+        return {"op": k, "dim": rng.choice(big), "axis": ax - (inner_rank + 1) if rng.random() < 0.25 else ax}
     if k == "concatenate":
-        return {"op": k, "dim": rng.choice(big), "axis": rng.randint(0, inner_rank - 1)}
+        ax = rng.randint(0, inner_rank - 1)
+        return {"op": k, "dim": rng.choice(big), "axis": ax - inner_rank if rng.random() < 0.25 else ax}
     if k == "expand":
         internal = rng.randrange(inner_rank)
         size = s.inner_shape[internal]
         vals = [f"e{i}" for i in range(size)] if rng.random() < 0.3 else None
-        return {"op": k, "dim": free_name, "internal": internal, "size": size, "axis": rng.randint(0, s.nd), "values": vals}
+        return {"op": k, "dim": free_name, "internal": internal - inner_rank if rng.random() < 0.25 else internal, "size": size, "axis": rng.randint(0, s.nd), "values": vals}
     if k == "isel":
         dim = rng.choice(big)
         n = s.size(dim)
